@@ -39,10 +39,11 @@ SCENARIOS = [
 ]
 if THOROUGH:
     SCENARIOS += [
-        ("open_run,close_run,custom,checkpoint", "pause,abort", {}),
-        ("open_run,close_run,custom,checkpoint", "pause,stop", {}),
-        ("open_run,custom,checkpoint", "pause,halt", {}),
-        ("open_run,custom,checkpoint", "abort,stop", {}),
+        # (pairs of request kinds: one request beyond the two of the quick tier; single kinds are unbounded)
+        ("open_run,close_run,custom,checkpoint", "pause,abort", {"max_requests": 3}),
+        ("open_run,close_run,custom,checkpoint", "pause,stop", {"max_requests": 3}),
+        ("open_run,custom,checkpoint", "pause,halt", {"max_requests": 3}),
+        ("open_run,custom,checkpoint", "abort,stop", {"max_requests": 3}),
         ("open_run,custom_async,checkpoint", "suspend,abort", {"max_requests": 2}),
     ]
 
